@@ -253,6 +253,38 @@ def run_bounded(chk):
                     probs = [f"{type(e).__name__}: {e}"[:200]]
                 if probs:
                     fails.append((f"Polyhedron.{what}:{name}/{tag}", {"points": P, "problems": probs}))
+    # merge_faces must not depend on the order in which the triangles are listed: facets with five and more vertices (three
+    # and more triangles each), triangles in fan order, reversed, shuffled, and in the order of the hull's own simplices
+    many = {n: named[n] for n in named if any(len(f) >= 5 for f in oracle.hull_facets(named[n])) and len(named[n]) <= 24}
+    many["prism6_dyadic"] = [[x, y, z] for z in (0.0, 1.0) for x, y in ((2, 0), (1, 1.75), (-1, 1.75), (-2, 0), (-1, -1.75), (1, -1.75))]
+    many["prism7"] = [[float(np.cos(2 * np.pi * k / 7)), float(np.sin(2 * np.pi * k / 7)), z] for z in (0.0, 1.0) for k in range(7)]
+    for name, pts in list(many.items())[:4 if chk.bounded_tier == "quick" else None]:
+        P = [[float(c) for c in p] for p in pts]
+        try:
+            hull = cox.shapes.ConvexPolyhedron(np.array(P) + np.array([2.0, -1.0, 0.5]))
+        except Exception as e:  # noqa: BLE001
+            fails.append((f"Polyhedron.merge_faces:{name}/construction", {"points": P, "problems": [f"{type(e).__name__}: {e}"[:200]]}))
+            continue
+        Pp = np.asarray(hull.vertices, float).tolist()
+        ef = [list(map(int, f)) for f in hull.faces]
+        fan = [[f[0], f[k], f[k + 1]] for f in ef for k in range(1, len(f) - 1)]
+        orders = {"fan": fan, "reversed": fan[::-1], "hull_simplices": [list(map(int, t)) for t in hull.simplices],
+                  "middle_last": [t for f in ef for t in ([[f[0], f[k], f[k + 1]] for k in range(1, len(f) - 1)][::2] + [[f[0], f[k], f[k + 1]] for k in range(1, len(f) - 1)][1::2])]}
+        for i in range(3 if chk.bounded_tier == "quick" else 10):
+            q = fan[:]
+            rnd.shuffle(q)
+            orders[f"shuffle{i}"] = q
+        for oname, tri in orders.items():
+            n_eval += 1
+            try:
+                pm = cox.shapes.Polyhedron(Pp, [list(t) for t in tri])
+                pm.merge_faces()
+                probs = structure_problems(pm, ef)
+            except Exception as e:  # noqa: BLE001
+                probs = [f"{type(e).__name__}: {e}"[:200]]
+            if probs:
+                fails.append((f"Polyhedron.merge_faces:{name}/triangles_{oname}", {"points": Pp, "triangles": tri, "problems": probs}))
+                break
     seen = set()
     for name, info in fails:
         key = name.split(":")[0] + str(info["problems"][:1])
@@ -265,7 +297,7 @@ def run_bounded(chk):
         chk.record("bounded:structure", fkey, "bounded-pass", "structural-contract", kind="bounded", detail=f"{n_eval} constructions")
     chk.bounded.append({"clause": "faces = exact hull facets, CCW from outside, unit outward planes containing their face with all other vertices inside, "
                                   "symmetric neighbours = shared edges, each edge once (i<j) sorted, Euler, num_edges, simplices triangulate faces; "
-                                  "sort_faces restores this from scrambled face orders, merge_faces from a triangulated surface",
+                                  "sort_faces restores this from scrambled face orders, merge_faces from a triangulated surface in any order of the triangles",
                         "bound": "named convex solids with <= 12 vertices and 10 (quick) / 60 lattice polytopes; 4 (quick) / 13 vertex orders "
                                  "(all permutations for <= 5 points, thorough); 2 (quick) / 4 rigid placements",
                         "evaluations": n_eval, "distinct_nontrivial": len(sets), "rule": "distinct = vertex sets; evaluations = constructions",
